@@ -263,7 +263,7 @@ pub fn main(tier: Tier, replay: Option<String>) -> i32 {
             let cats2 = cats.clone();
             let lc: Vec<char> = left.iter().map(|s| s.chars().next().unwrap()).collect();
             let rc: Vec<char> = right.iter().map(|s| s.chars().next().unwrap()).collect();
-            let bounds = tier.pick(TreeBounds { full_len: 4, ext_len: 6, max_special: 1 }, TreeBounds { full_len: 5, ext_len: 8, max_special: 2 });
+            let bounds = tier.pick(TreeBounds { full_len: 4, ext_len: 6, max_special: 1 }, TreeBounds { full_len: 5, ext_len: 7, max_special: 1 });
             let b = json!({"tree": bounds.to_json(), "maxYomiganaLength": max, "brackets": bl});
             jobs.push(job(
                 NormTree {
